@@ -91,6 +91,8 @@ type Gen struct {
 	tsid   uint64
 	// SeqHeights: WRKChain heights are mostly consecutive (several chains then share height values)
 	SeqHeights bool
+	// NoGovTarget: hostile transfers are aimed at the blocked module accounts only, never at gov
+	NoGovTarget bool
 }
 
 func NewGen(e *Env) *Gen { return &Gen{E: e, grants: map[string]bool{}} }
@@ -640,7 +642,11 @@ func (g *Gen) BankTx(o *lab.Obs, aimAtEscrowPct int) *TxPlan {
 	from := g.randAcct()
 	var to sdk.AccAddress
 	if r.Chance(aimAtEscrowPct) {
-		to = lab.ModAddr([]string{"enterprise", "stream", "fee_collector", "gov", "bonded_tokens_pool"}[r.Intn(5)])
+		targets := []string{"enterprise", "stream", "fee_collector", "bonded_tokens_pool", "gov"}
+		if g.NoGovTarget { // coins in the gov account make x/gov's own InitGenesis refuse an export (upstream)
+			targets = targets[:4]
+		}
+		to = lab.ModAddr(targets[r.Intn(len(targets))])
 	} else {
 		to = g.randAcct().Addr
 	}
